@@ -32,10 +32,10 @@ def call_entry(rng, entry, cls, model, invalid=True):
     both = invalid and cls == "both_permeate"
     Tperm = rng.uniform(200.0, T - 25.0) if both else None
     pperm = (rng.uniform(0.0, 3.0) if rng.random() < 0.75 else 0.0) if both else None       # 0.0 kPa is a stated pressure too
-    c = pv.Composition(p=rng.uniform(0.05, 0.95), type=rng.choice(["weight", "molar"]))
+    c = pv.Composition(p=rng.uniform(0.05, 0.95), type=gen.tstr(rng, rng.choice(["weight", "molar"])))
     if invalid and cls in ("model_params_missing", "component_constants_missing") and entry in ("activity", "partial_pressures", "solver") \
             and rng.random() < 0.3:
-        c = pv.Composition(p=rng.choice([0.0, 1.0]), type=rng.choice(["weight", "molar"]))    # a pure feed is a specification too
+        c = pv.Composition(p=rng.choice([0.0, 1.0]), type=gen.tstr(rng, rng.choice(["weight", "molar"])))    # a pure feed is a specification too
     perv = pv.Pervaporation(membrane=membrane, mixture=mix)
     P1, P2 = pv.Permeance(gen.logu(rng, 1e-4, 1.0)), pv.Permeance(gen.logu(rng, 1e-4, 1.0))
     kw = dict(permeate_temperature=Tperm, permeate_pressure=pperm, calculation_type=model)
